@@ -1,93 +1,17 @@
 package c14
 
 import (
-	"fmt"
-	"net/url"
 	"os"
-	"path/filepath"
 	"testing"
-
-	"github.com/tucats/ego/internal/server/tables/database"
-	"github.com/tucats/ego/verif/srvfix"
 )
 
-func TestExplore(t *testing.T) {
-	if os.Getenv("C14_EXPLORE") == "" {
-		t.Skip()
-	}
-	f, err := srvfix.Start(srvfix.Options{})
-	if err != nil {
-		t.Fatal(err)
-	}
-	tok, err := f.AdminToken()
-	if err != nil {
-		t.Fatal(err)
-	}
-	file := filepath.Join(f.Dir, "data.db")
-	if err := f.CreateSQLiteDSN(tok, "d1", file, false); err != nil {
-		t.Fatal(err)
-	}
-	database.VerifSetSQLTrace(func(kind, q string, p []any) { fmt.Printf("   SQL[%s] %s %v\n", kind, q, p) })
-	h := srvfix.Bearer(tok)
-	h["Content-Type"] = "application/json"
-	do := func(m, p, b string) {
-		r := f.Do(srvfix.Request{Method: m, Path: p, Header: h, Body: b})
-		fmt.Printf("%s %s %s\n -> %d %s panic=%v\n", m, p, b, r.Status, r.Body, r.Panic)
-	}
-
-	q := func(kv ...string) string {
-		v := url.Values{}
-		for i := 0; i < len(kv); i += 2 {
-			v.Add(kv[i], kv[i+1])
-		}
-		return "?" + v.Encode()
-	}
-	{
-		b := `{"name":"d2","provider":"sqlite","database":"` + filepath.Join(f.Dir, "d2.db") + `","restricted":false,"rowid":true}`
-		do("POST", "/dsns/", b)
-	}
-	do("PUT", "/dsns/d2/tables/t1", `[{"name":"id","type":"int"},{"name":"name","type":"string"}]`)
-	do("PUT", "/dsns/d2/tables/secrets", `[{"name":"id","type":"int"},{"name":"token","type":"string"}]`)
-	do("PUT", "/dsns/d2/tables/t1/rows", `{"id":1,"name":"tom"}`)
-	do("PUT", "/dsns/d2/tables/t1/rows", `{"id":2,"name":"x'"}`)
-	do("PUT", "/dsns/d2/tables/secrets/rows", `{"id":1,"token":"CANARY"}`)
-	do("PUT", "/dsns/d2/tables/t1/rows?abstract=true", `{"columns":[{"name":"id","type":"int"},{"name":"name","type":"string"}],"rows":[[5,"five"]]}`)
-	do("PUT", "/dsns/d1/tables/t1", `[{"name":"id","type":"int"},{"name":"name","type":"string"}]`)
-	do("PUT", "/dsns/d1/tables/secrets", `[{"name":"id","type":"int"},{"name":"token","type":"string"}]`)
-	do("PUT", "/dsns/d1/tables/secrets/rows", `{"id":1,"token":"CANARY"}`)
-	do("PUT", "/dsns/d1/tables/t1/rows?abstract=true", `{"columns":[{"name":"id","type":"int"},{"name":"name","type":"string"}],"rows":[[5,"five"]]}`)
-	do("PUT", "/dsns/d1/tables/t1/rows?abstract=true", `{"id":6,"name":"six"}`)
-	do("PATCH", "/dsns/d1/tables/t1/rows?abstract=true&filter=EQ(id,6)", `{"columns":[{"name":"name","type":"string"}],"rows":[["SIX"]]}`)
-	do("GET", "/dsns/d2/tables/t1/rows", ``)
-	do("GET", "/dsns/d2/tables/t1/rows"+q("filter", `EQ(name,"x'")`), ``)
-	do("GET", "/dsns/d2/tables/t1/rows"+q("filter", `EQ(name,'x"')`), ``)
-	do("GET", "/dsns/d2/tables/t1/rows"+q("filter", `EQ(name,"a\\b")`), ``)
-	do("GET", "/dsns/d2/tables/t1/rows"+q("filter", `EQ(name,"a b;c")`), ``)
-	do("GET", "/dsns/d2/tables/t1/rows"+q("filter", `EQ(name,"a -- b")`), ``)
-	do("GET", "/dsns/d2/tables/t1/rows"+q("filter", `EQ(name,"ʼx＇")`), ``)
-	do("GET", "/dsns/d2/tables/t1/rows"+q("filter", `eq(id, -1)`), ``)
-	do("GET", "/dsns/d2/tables/t1/rows"+q("filter", `EQ(id,1) OR 1=1`), ``)
-	do("GET", "/dsns/d2/tables/t1/rows"+q("filter", `EQ(id,1 OR 1=1)`), ``)
-	do("GET", "/dsns/d2/tables/t1/rows"+q("filter", `EQ(id,id)`), ``)
-	do("GET", "/dsns/d2/tables/t1/rows"+q("filter", `EQ(name,"x'"),EQ(name,"' ) UNION SELECT id,token,token FROM secrets --")`), ``)
-	do("GET", "/dsns/d2/tables/t1/rows"+q("sort", `id; DELETE FROM secrets --`), ``)
-	do("GET", "/dsns/d2/tables/secrets/rows", ``)
-	do("GET", "/dsns/d2/tables/"+url.PathEscape("t1,secrets")+"/rows", ``)
-	do("GET", "/dsns/d2/tables/"+url.PathEscape("secrets --")+"/rows", ``)
-	do("DELETE", "/dsns/d2/tables/t1/rows"+q("filter", `EQ(name,"x'"),EQ(name,"' ) OR 1=1 --")`), ``)
-	do("GET", "/dsns/d2/tables/t1/rows", ``)
-	do("PUT", "/dsns/d2/tables/t1/rows?upsert=id", `{"id":1,"name":"tom2"}`)
-	do("PUT", "/dsns/d2/tables/t1/rows?upsert=id", `{"id":1,"name":"tom3"}`)
-	do("GET", "/dsns/d2/tables/t1/rows", ``)
-	do("POST", "/dsns/d2/tables/@transaction", `[{"operation":"symbols","data":{"who":"x' OR '1'='1"}},{"operation":"readrows","table":"t1","filters":["EQ(name,'{{who}}')"]}]`)
-	do("POST", "/dsns/d2/tables/@transaction", `[{"operation":"readrows","table":"t1","columns":["count(*) FROM secrets --"]}]`)
-	do("POST", "/dsns/d2/tables/@transaction", `[{"operation":"update","table":"t1 AS x","filters":["EQ(id,1)"],"data":{"name":"q"}}]`)
-	n, _ := os.ReadDir("/proc/self/fd")
-	fmt.Println("fds", len(n))
-}
-
-// TestBenignTrace prints (with -v) the statements that the documented
-// examples execute; this is what the whitelist of layer (i) was taken from.
+// TestBenignTrace prints (C14_EXPLORE=1 go test -v -run TestBenignTrace) the
+// verdicts and labels of the documented examples; with describe() output it
+// is how the whitelist of layer (i) was calibrated: benign requests execute
+// the metadata probe `SELECT * FROM <table> WHERE 1=0` (when the schema cache
+// is cold), the statement itself, and for upsert `SELECT count(*) as count
+// FROM <table> WHERE …`; nothing else, and no bookkeeping table in the DSN's
+// database.
 func TestBenignTrace(t *testing.T) {
 	if os.Getenv("C14_EXPLORE") == "" {
 		t.Skip()
